@@ -33,6 +33,8 @@ impl Compactor {
     }
 
     async fn compact_table(&self, snapshot: &Snapshot, table: SecondaryTable) -> StorageResult<()> {
+        #[cfg(risinglight_verif)]
+        crate::verif::gate("compactor.table.locked").await;
         let rowsets = if let Some(rowsets) = snapshot.get_rowsets_of(table.table_id()) {
             rowsets
         } else {
@@ -55,6 +57,8 @@ impl Compactor {
         if selected_rowsets.len() <= 1 {
             return Ok(());
         }
+        #[cfg(risinglight_verif)]
+        crate::verif::gate("compactor.selected").await;
 
         // sort RowSets by id so that the output RowSet will have old rows in the front and new rows
         // at the end.
@@ -82,6 +86,8 @@ impl Compactor {
             );
         }
 
+        #[cfg(risinglight_verif)]
+        crate::verif::gate("compactor.inputs_opened").await;
         let sort_keys = find_sort_key_id(&table.columns);
         let mut iter: SecondaryIterator = if !sort_keys.is_empty() {
             MergeIterator::new(
@@ -137,6 +143,8 @@ impl Compactor {
         }
 
         let rowset = builder.finish();
+        #[cfg(risinglight_verif)]
+        crate::verif::gate("compactor.inputs_read").await;
 
         let mut changes: Vec<EpochOp> = vec![];
 
@@ -184,7 +192,11 @@ impl Compactor {
             })
         }));
 
+        #[cfg(risinglight_verif)]
+        crate::verif::gate("compactor.before_commit").await;
         self.storage.version.commit_changes(changes).await?;
+        #[cfg(risinglight_verif)]
+        crate::verif::gate("compactor.committed").await;
 
         match rowset_id {
             Some(rowset_id) => {
@@ -208,8 +220,12 @@ impl Compactor {
     pub async fn run(mut self) -> StorageResult<()> {
         loop {
             {
+                #[cfg(risinglight_verif)]
+                crate::verif::gate("compactor.pass.begin").await;
                 let tables = self.storage.tables.read().clone();
                 let pin_version = self.storage.version.pin();
+                #[cfg(risinglight_verif)]
+                crate::verif::gate("compactor.pinned").await;
                 for (_, table) in tables {
                     if let Some(_guard) = self
                         .storage
